@@ -264,11 +264,49 @@ func (o *OracleC22) AfterTxn(w *ledger.World, bc *ledger.BlockCtx, out *ledger.O
 		if !within(a.M, wantM, tol) {
 			o.viol(w, "split", "payfees/miner-side-differs-from-share-ratio", fmt.Sprintf("miner side %v, share ratio %v of %v", a.M, gn.ShareRatio, a.T))
 		}
-	} else if a.M.Sign() > 0 {
-		if !within(a.M, wantM, tol) {
-			o.viol(w, "split", "payfees/miner-side-differs-from-share-ratio", fmt.Sprintf("miner side %v, share ratio %v of %v", a.M, gn.ShareRatio, a.T))
+	} else {
+		// The generator cannot be paid. One that is alive but under-staked forfeits the miner side
+		// (the statement of C10: an under-staked provider receives nothing). One that was killed (or
+		// never registered) does not make the miner side disappear: fees plus block reward are still
+		// split between a miner side and a sharder side that add up exactly, so the miner side goes, in
+		// full, to a miner that may receive it. Which live miner is the contract's choice (not
+		// mirrored here); when every live registered miner is eligible the choice does not matter.
+		genPool := (*stakepool.StakePool)(nil)
+		if gen != nil {
+			genPool = prePool(o.M, bc, v, gen)
 		}
-		minerSideKnown = true
+		liveM, underM := 0, 0
+		for _, p := range o.M.Provs {
+			if p.Kind != spenum.Miner {
+				continue
+			}
+			sp := prePool(o.M, bc, v, p)
+			if sp == nil || sp.HasBeenKilled {
+				continue
+			}
+			liveM++
+			if !eligible(sp) {
+				underM++
+			}
+		}
+		substitute := gen == nil || genPool == nil || genPool.HasBeenKilled
+		switch {
+		case substitute && liveM > 0 && underM == 0:
+			minerSideKnown = true
+			w.Tr.Probe("payfees_killed_generator_miner_side_checked")
+			if a.M.Sign() == 0 && !within(a.M, wantM, tol) {
+				o.viol(w, "split", "payfees/generator-killed/miner-side-credited-to-nobody", fmt.Sprintf("generator %s cannot be paid, %d live eligible miners, miner side (share ratio %v of %v) credited to nobody; sharder side %v", bc.B.MinerID[:8], liveM, gn.ShareRatio, a.T, a.S))
+			} else if !within(a.M, wantM, tol) {
+				o.viol(w, "split", "payfees/miner-side-differs-from-share-ratio", fmt.Sprintf("miner side %v, share ratio %v of %v", a.M, gn.ShareRatio, a.T))
+			}
+		case a.M.Sign() > 0:
+			if !within(a.M, wantM, tol) {
+				o.viol(w, "split", "payfees/miner-side-differs-from-share-ratio", fmt.Sprintf("miner side %v, share ratio %v of %v", a.M, gn.ShareRatio, a.T))
+			}
+			minerSideKnown = true
+		case substitute:
+			w.Tr.Probe("payfees_killed_generator_undecided")
+		}
 	}
 	// sharders: n rewarded out of the live registered ones
 	live, under := 0, 0
@@ -315,7 +353,7 @@ func (o *OracleC22) AfterTxn(w *ledger.World, bc *ledger.BlockCtx, out *ledger.O
 		} else if a.S.Cmp(big.NewInt(int64(2*nRew))) > 0 {
 			o.viol(w, "sharders", "payfees/rewarded-sharder-left-out", fmt.Sprintf("%d of %d sharders credited although %v units were shared out", len(sharders), nRew, a.S))
 		}
-		if minerSideKnown && genOK || (minerSideKnown && a.M.Sign() > 0) {
+		if minerSideKnown {
 			// everybody eligible: nothing may be lost
 			if sum.Cmp(a.T) != 0 {
 				o.viol(w, "total", "payfees/total-differs-from-fees-plus-reward", fmt.Sprintf("credited %v = miner side %v + sharder side %v; block fees %v + block reward %v = %v", sum, a.M, a.S, a.Fees, a.BlockReward, a.T))
